@@ -213,6 +213,9 @@ func TestVerifDynamic(t *testing.T) {
 	prefixes := []string{"", "type=AVC msg=audit(1690000000.123:42): ", "Oct  1 10:00:00 host kernel: [ 12.345] audit: type=1400 audit(1690000000.123:42): "}
 	statuses := []string{"DENIED", "ALLOWED", "AUDIT", "STATUS", "HINT", "denied"}
 	keys := []string{"profile", "label", "name", "comm"}
+	// paths of the record: the documented noise of abstractions/base is dropped, others kept
+	names := map[string]bool{"/home/u/file": false, "/etc/passwd": false, "/usr/lib/foo/plugins/libbar.so": false, "/etc/foo/modules.d/bar.so.conf": false,
+		"/etc/ld.so.cache": true, "/usr/lib/libc.so.6": true, "/usr/share/locale/fr/app.mo": true, "/usr/share/zoneinfo/UTC": true, "/dev/null": true, "/dev/urandom": true}
 	evals, viol := 0, 0
 	first := ""
 	for _, filter := range []string{"", "foo"} {
@@ -220,9 +223,19 @@ func TestVerifDynamic(t *testing.T) {
 		for _, pre := range prefixes {
 			for _, st := range statuses {
 				for _, key := range keys {
-					for _, v := range values {
-						line := pre + "apparmor=\"" + st + "\" operation=\"open\" class=\"file\" " + key + "=\"" + v + "\" pid=1 requested_mask=\"r\" denied_mask=\"r\" fsuid=0 ouid=0"
-						want := st == "DENIED" || st == "ALLOWED" || st == "AUDIT"
+					for vi, v := range values {
+						path, noise := "/home/u/file", false
+						if vi == 0 && pre == "" {
+							// the path dimension is crossed with the first value and prefix only
+							path = ""
+						}
+						_ = noise
+						for p2, isNoise := range names {
+							if path != "" && p2 != path {
+								continue
+							}
+						line := pre + "apparmor=\"" + st + "\" operation=\"open\" class=\"file\" " + key + "=\"" + v + "\" info=\"" + p2 + "\" pid=1 requested_mask=\"r\" denied_mask=\"r\" fsuid=0 ouid=0"
+						want := (st == "DENIED" || st == "ALLOWED" || st == "AUDIT") && !isNoise
 						if filter != "" {
 							want = want && (key == "profile" || key == "label") && strings.HasPrefix(v, filter)
 						}
@@ -233,6 +246,7 @@ func TestVerifDynamic(t *testing.T) {
 							if first == "" {
 								first = fmt.Sprintf(" filter=%q line=%q reported=%v want=%v", filter, line, got, want)
 							}
+						}
 						}
 					}
 				}
@@ -245,7 +259,7 @@ func TestVerifDynamic(t *testing.T) {
 	r := runDynamic(env, "pkg/logs", "C14/GetApparmorLogs-filter-grammar", src)
 	r.Name = "bounded/C14/GetApparmorLogs-filter-grammar"
 	r.Kind, r.Backend = "bounded", "go test, exhaustive over the stated record grammar"
-	r.Detail = strings.Replace(r.Detail, "dynamic (not a proof)", "bounded stand-in (not a proof; grammar: 2 filters x 3 line prefixes x 6 statuses x 4 keys x 4 values)", 1)
+	r.Detail = strings.Replace(r.Detail, "dynamic (not a proof)", "bounded stand-in (not a proof; grammar: 2 filters x 3 line prefixes x 6 statuses x 4 keys x 4 values, plus 10 paths (6 documented noise paths, 4 others) crossed with the first value and prefix)", 1)
 	return r
 }
 
@@ -380,7 +394,7 @@ func TestVerifDynamic(t *testing.T) {
 		if x {
 			directive = "  #aa:stack X one two"
 		}
-		host := "profile host /usr/bin/host {\n  include <abstractions/base>\n\n  /host/own r,\n\n" + directive + "\n  include if exists <local/host>\n}\n"
+		host := "profile host /usr/bin/host {\n  include <abstractions/base>\n\n  /host/own r,\n\n  profile hsub {\n    /host/sub r,\n\n    include if exists <local/host_hsub>\n  }\n\n" + directive + "\n  include if exists <local/host>\n}\n"
 		got, err := Run(paths.New("host"), host)
 		evals++
 		if err != nil {
@@ -395,6 +409,9 @@ func TestVerifDynamic(t *testing.T) {
 		}
 		if strings.Contains(got, "@{exec_path}") {
 			bad(fmt.Sprintf("%q: an entry point of a stacked profile arrived: %q", directive, got))
+		}
+		if e := strings.Index(got, "include if exists <local/host_hsub>"); e < 0 || strings.Index(got, "# Stacked profile: one") < e {
+			bad(fmt.Sprintf("%q: the stacked rules were not inserted at the end of the host profile (after its sub profile): %q", directive, got))
 		}
 		last := -1
 		for _, m := range []string{"/marker/one/a r,", "/marker/one/b r,", "/marker/one/c r,", "/marker/one/d r,", "/marker/two/a r,"} {
@@ -494,6 +511,24 @@ func TestVerifDynamic(t *testing.T) {
 								want = append(want, "", in[12], "")
 							}
 							want = append(want, in[14:]...)
+							// and a tunables-like file whose directives start in column 0
+							in0 := []string{"# tunables", "", "#aa:only " + f1, "@{one} = /a", "", "#aa:exclude " + f3, "@{two} = /b", "", "@{three} = /c", ""}
+							want0 := []string{"# tunables", ""}
+							if applies(f1) {
+								want0 = append(want0, "", "@{one} = /a", "")
+							}
+							if !applies(f3) {
+								want0 = append(want0, "", "@{two} = /b", "")
+							}
+							want0 = append(want0, "@{three} = /c", "")
+							got0, err0 := Run(paths.New("tun"), strings.Join(in0, "\n"))
+							evals++
+							if err0 != nil || got0 != strings.Join(want0, "\n") {
+								viol++
+								if first == "" {
+									first = fmt.Sprintf(" target=%s/%s/abi%d/%.1f column-0 only %q, exclude %q: got %q want %q err=%v", dist, fams[dist], abi, ver, f1, f3, got0, strings.Join(want0, "\n"), err0)
+								}
+							}
 							got, err := Run(paths.New("foo"), strings.Join(in, "\n"))
 							evals++
 							if err != nil || got != strings.Join(want, "\n") {
@@ -514,7 +549,7 @@ func TestVerifDynamic(t *testing.T) {
 	r := runDynamic(env, "pkg/prebuild/directive", "C03/only-exclude-text-surgery", src)
 	r.Name = "bounded/C03/only-exclude-text-surgery"
 	r.Kind, r.Backend = "bounded", "go test, exhaustive over 6^3 filter lists x 16 build targets"
-	r.Detail = strings.Replace(r.Detail, "dynamic (not a proof)", "bounded stand-in (not a proof; one profile shape with a paragraph only, an inline exclude and a paragraph exclude; 6 filter lists each; 4 distributions x ABI {3,4} x version {4.0,4.1})", 1)
+	r.Detail = strings.Replace(r.Detail, "dynamic (not a proof)", "bounded stand-in (not a proof; a tunables-like file with column-0 paragraph directives, and one profile shape with a paragraph only, an inline exclude and a paragraph exclude; 6 filter lists each; 4 distributions x ABI {3,4} x version {4.0,4.1})", 1)
 	return r
 }
 
@@ -569,8 +604,8 @@ func verifExpand(vars map[string][]string, s string, depth int) ([]string, error
 }
 
 func TestVerifDynamic(t *testing.T) {
-	vars := map[string][]string{"a": {"x", "y"}, "b": {"@{a}/1", "z"}, "c": {"/r/", "/s"}, "e": {"m", "n", "o"}}
-	inputs := []string{"@{a}", "/p/@{a}", "@{a}/@{a}", "@{b}", "@{c}/q", "@{a}@{c}", "@{b}/@{a}", "/no/var", "@{c}@{c}", "@{e}", "/@{e}/@{a}/@{e}", "@{nope}/x", "@{a}/@{nope}", "@{s}"}
+	vars := map[string][]string{"a": {"x", "y"}, "b": {"@{a}/1", "z"}, "c": {"/r/", "/s"}, "e": {"m", "n", "o"}, "f": {"@{g}/x"}, "g": {"@{h}/y", "/w"}, "h": {"/z"}}
+	inputs := []string{"@{f}", "/opt/@{f}/bin", "@{a}", "/p/@{a}", "@{a}/@{a}", "@{b}", "@{c}/q", "@{a}@{c}", "@{b}/@{a}", "/no/var", "@{c}@{c}", "@{e}", "/@{e}/@{a}/@{e}", "@{nope}/x", "@{a}/@{nope}", "@{s}"}
 	evals, viol := 0, 0
 	first := ""
 	for _, in := range inputs {
@@ -579,6 +614,8 @@ func TestVerifDynamic(t *testing.T) {
 		f.Preamble = append(f.Preamble, &Variable{Name: "b", Values: []string{"@{a}/1", "z"}, Define: true})
 		f.Preamble = append(f.Preamble, &Variable{Name: "c", Values: []string{"/r/", "/s"}, Define: true})
 		f.Preamble = append(f.Preamble, &Variable{Name: "e", Values: []string{"m"}, Define: true}, &Variable{Name: "e", Values: []string{"n", "o"}, Define: false})
+		// a chain of forward references: each variable refers to one defined after it
+		f.Preamble = append(f.Preamble, &Variable{Name: "f", Values: []string{"@{g}/x"}, Define: true}, &Variable{Name: "g", Values: []string{"@{h}/y", "/w"}, Define: true}, &Variable{Name: "h", Values: []string{"/z"}, Define: true})
 		all := map[string][]string{}
 		for k, v := range vars {
 			all[k] = v
@@ -607,7 +644,7 @@ func TestVerifDynamic(t *testing.T) {
 `
 	r := runDynamic(env, "pkg/aa", "C13/expansion-of-attachments", src)
 	r.Name = "bounded/C13/expansion-of-attachments"
-	r.Kind, r.Backend = "bounded", "go test, 14 attachment patterns over a five-variable preamble"
-	r.Detail = strings.Replace(r.Detail, "dynamic (not a proof)", "bounded stand-in (not a proof; 14 attachment patterns: nested, repeated and adjacent references, trailing slashes, +=, undefined and self-referential variables)", 1)
+	r.Kind, r.Backend = "bounded", "go test, 16 attachment patterns over an eight-variable preamble"
+	r.Detail = strings.Replace(r.Detail, "dynamic (not a proof)", "bounded stand-in (not a proof; 16 attachment patterns: forward reference chains, nested, repeated and adjacent references, trailing slashes, +=, undefined and self-referential variables)", 1)
 	return r
 }
